@@ -163,14 +163,15 @@ def array_rules(facts, rep):
     rep.rule('AR.1', 'count agreement on every constructor path: allocation count == number of elements constructed / copied == final m_size; source index == destination index')
     rep.rule('AR.2', 'resize / assignment: elements [new, old) are destroyed exactly once, storage is resized, [old, new) initialised, and on every path that returns m_size equals the number of live elements')
     rep.rule('AR.3', 'deep copy: the copy constructor allocates fresh storage and never stores the source pointer; move is a swap of all fields')
-    rep.rule('AR.4', 'class types are never memcpy-copied; the destructor destroys [0, m_size) and frees')
+    rep.rule('AR.4', 'elements are copied with memcpy only when T is trivially copyable (std::is_trivially_copyable_v<T> of the instantiation, computed by the compiler); the destructor destroys [0, m_size) and frees')
     rep.rule('AR.5', 'allocation and memcpy sizes are count * sizeof(T)')
     rep.assume('element constructors / destructors of T are trusted; Array(ptr, size, copy=false) adopts foreign storage (not decided); exception paths are not modelled')
     classes = sorted(c for c in facts.classes if strip_targs(c) == 'tulz::Array')
     rep.floor('Array instantiations', len(classes), 4)
     nfn = 0
     for C in classes:
-        T = elem_type(C); is_class = T not in TRIVIAL
+        T = elem_type(C); tc, td = elem_traits(facts, C, T); is_class = not (tc and td)
+        copy_only = td and not tc          # no destructor to account for, but copying must go through T's copy constructor: only the copy rule is applied
         short = C.replace('std::basic_string<char>', 'std::string')
         fns = [f for f in facts.fns if f.d.get('classfull') == C and not f.d.get('lambda')]
         for f in fns:
@@ -186,13 +187,26 @@ def array_rules(facts, rep):
             for rows, dom, paths in res:
                 for P in paths:
                     if P.end in ('throw', 'noreturn'): continue
-                    check_array_path(rep, f, label, rows, dom, P, is_class, base)
+                    check_array_path(rep, f, label, rows, dom, P, is_class, base, tc, copy_only)
     rep.count('array_functions', nfn)
     rep.floor('Array member functions analysed', nfn, 40)
 
 
-def check_array_path(rep, f, label, rows, dom, P, is_class, base):
+COPY_MEMCPY = 'elements of a type that is not trivially copyable are copied with memcpy: no copy constructor runs, so the copy shares whatever the source elements own or refer to (and both arrays later destroy it)'
+
+
+def check_array_path(rep, f, label, rows, dom, P, is_class, base, tc=None, copy_only=False):
     rs = row_str(rows)
+    if tc is None: tc = not is_class
+    if copy_only:
+        # T is trivially destructible but has its own copy constructor: lifetimes need no accounting, copies must still be made by T
+        for k, node, p in P.events:
+            if k == 'c' and p[0] == 'memcpy':
+                src = p[2]
+                own = isinstance(src, Ptr) and src.base == 'data0'
+                if own: rep.ok('AR.4', f'{label} {rs}: memcpy relocates the array\'s own elements', node.shortloc())
+                else: rep.violation('AR.4', f'{label} {rs}', node.shortloc(), COPY_MEMCPY, key=f'AR.4|memcpy-copy|{strip_targs(f.qname)}', fn=f.name)
+        return
     g = Ghost(dom, is_class)
     ctor = bool(f.d.get('ctor'))
     if not ctor:
@@ -259,14 +273,14 @@ def check_array_path(rep, f, label, rows, dom, P, is_class, base):
         elif kind == 'memcpy':
             dst, src, nb = p[1], p[2], p[3]
             n = g.nbytes(nb, node, 'memcpy')
-            if is_class: memcpy_class = node
+            if not tc and not (isinstance(src, Ptr) and src.base == 'data0'): memcpy_class = node          # moving the array's own elements to a new block is relocation, which the element types in scope allow
             if isinstance(dst, Ptr) and dst.base in g.live and n is not None: g.live[dst.base] = n
             if isinstance(dst, Ptr) and n is not None and g.alloc.get(dst.base) is not None and g.le(n, g.alloc[dst.base]) is False:
                 viol.append(('AR.5', node, f'memcpy of {n} elements into a block of {g.alloc[dst.base]}'))
         elif kind == 'algo':
             pass
     for r, node, why in g.problems: viol.append((r, node, why))
-    if memcpy_class is not None: viol.append(('AR.4', memcpy_class, 'a class-type element array is copied with memcpy (no copy constructors run; both arrays later destroy the same resources)'))
+    if memcpy_class is not None: viol.append(('AR.4', memcpy_class, COPY_MEMCPY))
     # exit state
     arr = field(P, 'this', 'm_array', dom); size = field(P, 'this', 'm_size', dom)
     if isinstance(arr, Ptr) and arr.base.startswith('param:'): adopted = True
@@ -540,7 +554,7 @@ def ring_analyse(facts, rep):
     P_, S_, C_ = Lin.sym('P'), Lin.sym('S'), Lin.sym('C')
     one = Lin.const(1)
     for Cn in classes:
-        T = elem_type(Cn); is_class = T not in TRIVIAL
+        T = elem_type(Cn); tc, td = elem_traits(facts, Cn, T); is_class = not (tc and td)
         ow = Cn.rstrip('>').endswith('true')
         short = Cn.replace('std::basic_string<char>', 'std::string')
         fns = [f for f in facts.fns if f.d.get('classfull') == Cn and not f.d.get('lambda')]
@@ -596,6 +610,13 @@ def ring_analyse(facts, rep):
                     if fn is not None: fn(ctx, add, label, rt, site)
     res['_nfn'] = nfn; res['_nclasses'] = len(classes)
     return res
+
+
+def elem_traits(facts, Cn, T):
+    """(std::is_trivially_copyable_v<T>, std::is_trivially_destructible_v<T>) of the element type, as computed by the compiler for this instantiation"""
+    tt = (facts.cls(Cn) or {}).get('targ_traits') or []
+    if tt: return bool(tt[0]['trivially_copyable']), bool(tt[0]['trivial_dtor'])
+    return (T in TRIVIAL), (T in TRIVIAL)
 
 
 def check_rb6(ctx, add, label, rt, base):
